@@ -585,3 +585,98 @@ class Prog:
                 seen[k] = t
                 dq.append(t)
         return seen
+
+
+# --------------------------------------------------------------------------------------------
+# uses of locals
+
+def _ops_of_rvalue(rv):
+    k = rv['rv']
+    if k in ('use', 'cast', 'repeat'):
+        return [rv['op']]
+    if k == 'bin':
+        return [rv['l'], rv['r']]
+    if k == 'un':
+        return [rv['x']]
+    if k in ('ref', 'rawptr', 'discr'):
+        return [{'k': 'copy', 'place': rv['place']}]
+    if k == 'agg':
+        return list(rv['ops'])
+    return []
+
+
+def local_uses(body, l):
+    """all reads of local `l` (as operand base or index): list of dicts
+    {block, kind: 'stmt'|'callarg'|'switch'|'assert'|'drop'|'callfn', stmt/call, argi}"""
+    out = []
+    for b in range(body.n):
+        bl = body.blocks[b]
+        if bl['cleanup']:
+            continue
+        for i, st in enumerate(bl['stmts']):
+            if st['s'] == 'assign':
+                for o in _ops_of_rvalue(st['rv']):
+                    if is_place_op(o) and (o['place']['l'] == l or any(p['k'] == 'index' and p['l'] == l for p in o['place']['p'])):
+                        out.append({'block': b, 'kind': 'stmt', 'stmt': st, 'idx': i, 'op': o})
+                pl = st['place']
+                if pl['p'] and (pl['l'] == l) and any(p['k'] == 'deref' for p in pl['p']):
+                    out.append({'block': b, 'kind': 'store_through', 'stmt': st, 'idx': i})
+        t = bl['term']
+        k = t['t']
+        if k == 'call':
+            for ai, a in enumerate(t['args']):
+                if is_place_op(a) and a['place']['l'] == l:
+                    out.append({'block': b, 'kind': 'callarg', 'call': Call(body, b, t), 'argi': ai, 'op': a})
+            if is_place_op(t['func']) and t['func']['place']['l'] == l:
+                out.append({'block': b, 'kind': 'callfn', 'call': Call(body, b, t)})
+        elif k == 'switch':
+            if is_place_op(t['discr']) and t['discr']['place']['l'] == l:
+                out.append({'block': b, 'kind': 'switch'})
+        elif k == 'assert':
+            if is_place_op(t['cond']) and t['cond']['place']['l'] == l:
+                out.append({'block': b, 'kind': 'assert'})
+        elif k == 'drop':
+            if t['place']['l'] == l:
+                out.append({'block': b, 'kind': 'drop'})
+    return out
+
+
+def forward_uses(body, l, through_transparent=True, limit=200):
+    """transitive forward slice of a value held in local l: follows copies/moves/casts/field reads/
+    transparent calls; returns the 'sink' uses (anything that is not a plain forwarding)."""
+    sinks = []
+    seen = set()
+    work = [l]
+    while work and len(seen) < limit:
+        x = work.pop()
+        if x in seen:
+            continue
+        seen.add(x)
+        for u in local_uses(body, x):
+            k = u['kind']
+            if k == 'drop':
+                continue
+            if k == 'stmt':
+                st = u['stmt']
+                rv = st['rv']
+                if rv['rv'] in ('use', 'cast', 'ref', 'rawptr') and not st['place']['p']:
+                    work.append(st['place']['l'])
+                    continue
+                if rv['rv'] == 'discr':
+                    # reading the discriminant only: not a use of the payload; record as 'discr'
+                    sinks.append(dict(u, sink='discr'))
+                    continue
+                if rv['rv'] in ('use', 'cast') and st['place']['p']:
+                    sinks.append(dict(u, sink='store'))
+                    continue
+                sinks.append(dict(u, sink=rv['rv']))
+                continue
+            if k == 'callarg':
+                c = u['call']
+                if through_transparent and is_transparent(c.callee) and u['argi'] == 0 and not c.dest['p']:
+                    work.append(c.dest['l'])
+                    continue
+                sinks.append(dict(u, sink='call'))
+                continue
+            sinks.append(dict(u, sink=k))
+    return sinks
